@@ -31,6 +31,8 @@ def _mentions(e, vars_, paths):
     e = sk(e)
     if e is None:
         return
+    if cval(e) is not None and e.get("k") not in ("Ref",):
+        return          # a constant expression (sizeof x, N - 2) reads no memory
     p = apath(e)
     if p is not None:
         paths.append((p, e.get("t")))
@@ -395,6 +397,23 @@ def _min_arms(r):
     return []
 
 
+def _min_unsigned(r):
+    """Is the MIN's comparison carried out in an unsigned type with one operand a
+    genuinely unsigned quantity?  Then the result is that quantity or a
+    non-negative value below it."""
+    if not _min_arms(r):
+        return False
+    c = r["a"][0]
+    while c.get("k") in ir.CASTS:
+        c = c["a"][0]
+    if c.get("k") != "Bin":
+        return False
+    from .sym import _conv_signed
+    ts = [(x.get("t") or {}) for x in c["a"]]
+    uns = all(t.get("k") == "int" and t.get("signed") is False for t in ts)
+    return uns and not (_conv_signed(c["a"][0]) and _conv_signed(c["a"][1]))
+
+
 def iter_cmp(d, hist=False):
     """(lkey, op, rkey, fact) of every comparison in d, non-constant ones in
     both orientations; with hist=True the remembered (history) facts instead."""
@@ -500,6 +519,17 @@ def cond_facts(c, truth):
     if k == "Bin" and c["op"] in CMP_OPS:
         l, r = _val(c["a"][0]), _val(c["a"][1])
         op = c["op"] if truth else NEG[c["op"]]
+        from .sym import _conv_signed
+        cl, cr = _conv_signed(c["a"][0]), _conv_signed(c["a"][1])
+        if (cl or cr) and op != "!=":
+            # a signed value compared as unsigned: a negative value counts as huge, so only
+            # "below an unsigned quantity" is informative, and it also means non-negative
+            if cl and cr:
+                return [Fact(op, l, r)] if op == "==" else []
+            x, u, xop = (l, r, op) if cl else (r, l, FLIP[op])
+            if xop in ("<", "<=", "=="):
+                return [Fact(xop, x, u), Fact(">=", x, mkint(0))]
+            return []
         return [Fact(op, l, r)]
     if k == "Bin" and c["op"] == "&&":
         if truth:
@@ -525,10 +555,16 @@ def _val(e):
     return e
 
 
+READERS = {"strlen", "strcmp", "strncmp", "strcasecmp", "strncasecmp", "memcmp", "htons", "ntohs", "htonl", "ntohl",
+           "__bswap_16", "__bswap_32", "tolower", "toupper", "abs"}
+
+
 def is_pure(e):
     for x in walk(e):
         k = x.get("k")
         if k == "Call":
+            if x.get("fn") in READERS:
+                continue        # reads memory only: facts about it are killed through the paths of its arguments
             return False
         if k == "Bin" and x["op"] in ASSIGN_OPS:
             return False
@@ -779,11 +815,16 @@ class Analysis:
                 elif is_pure(rv) and rv.get("k") not in ("InitList", "Str") and (
                         lp[0][2] not in _rvars(rv) or _disjoint_write(lp, lhs.get("t"), rv)):
                     new.add(Fact("==", lhs, rv))
+                    if rv.get("k") == "Cond" and _min_unsigned(rv) and (lhs.get("t") or {}).get("bits", 0) >= 32:
+                        # MIN evaluated in an unsigned type: the smaller operand is a non-negative value
+                        new.add(Fact(">=", lhs, mkint(0)))
                 elif is_pure(rv) and rv.get("k") == "Cond":
                     # x = MIN(x, E): afterwards x <= E
                     for arm in _min_arms(rv):
                         if lp[0][2] not in _rvars(arm) and not (Fact("<=", lhs, arm).vars & lvars - {lp[0][2]}):
                             new.add(Fact("<=", lhs, arm))
+                    if _min_unsigned(rv):
+                        new.add(Fact(">=", lhs, mkint(0)))
         return frozenset(new)
 
     def apply_edge(self, d, facts):
@@ -1012,6 +1053,7 @@ class Engine:
         self.P = program
         self.hist_roots = set(hist_roots)
         self.focus = focus
+        self.ret_ub = {}         # function name -> (capacity argument index, k): a positive result is <= that argument + k
         self._an = {}
         self._sum = {}
         self._busy = set()
@@ -1172,8 +1214,24 @@ class Engine:
         """Conditional facts for one call, phrased on `term` (the call
         expression itself or the variable it is assigned to)."""
         tgt = self.P.callee(call, caller)
+        extra = []
+        ub = self.ret_ub.get(call.get("fn"))
+        if ub is not None:
+            ci, k = ub[0], ub[1]
+            args_ = call.get("a", [])
+            applies = len(ub) < 3 or (ub[2][0] < len(args_) and cval(sk(args_[ub[2][0]])) == ub[2][1])
+            if applies and ci < len(args_) and is_pure(args_[ci]):
+                a_ = sk(args_[ci])
+                if k == 0:
+                    bound = a_
+                else:
+                    bound = {"k": "Bin", "op": "+" if k > 0 else "-", "t": a_.get("t") or INT_T,
+                             "a": [a_, mkint(abs(k))]}
+                    if cval(a_) is not None:
+                        bound = mkint(cval(a_) + k)
+                extra.append(Imp(term, ">", 0, Fact("<=", sk(term), bound)))
         if tgt is None:
-            return []
+            return extra
         args = call.get("a", [])
         mapping = {}
         pids = {p["ref"]["id"] for p in tgt.params}
@@ -1181,7 +1239,7 @@ class Engine:
             if is_pure(a):
                 mapping[p["ref"]["id"]] = sk(a)
         mapping[-1] = sk(term)
-        out = []
+        out = list(extra)
         for relop, c in self.RELS:
             s = self.summary(tgt, relop, c)
             if not s:
